@@ -541,6 +541,7 @@ fn run_case(cfg: &Config, text: &str, rng: &mut Rng, nvals: usize) -> Outcome {
         let mentioned: Vec<i32> = INT_SCRATCH.iter().chain(FLOAT_SCRATCH.iter()).chain(INT_OTHER.iter()).chain(FLOAT_OTHER.iter())
             .copied().filter(|r| text.contains(&format!("REG[{}]", r)) || !(cfg.pool_int.contains(r) || cfg.pool_float.contains(r))).collect();
         let mut run_parts: Vec<String> = vec![];
+        let mut ejt_seen = 0usize;
         for ival in 0..nvals {
             let vm_difficulty = rng.below(4) as u32;
             let mut vm = AstVm::new().with_max_iterations(2000).with_difficulty(vm_difficulty);
@@ -560,10 +561,11 @@ fn run_case(cfg: &Config, text: &str, rng: &mut Rng, nvals: usize) -> Outcome {
                 continue;
             }
             let r_new = catch(|| { new_vm.run(&new_stmts, ctx); });
-            if ival < 2 {
+            let run_part = {
                 let tgt = if r_new.is_ok() { vm_coq(&new_vm, &mentioned) } else { "RFail".to_string() };
-                run_parts.push(format!("({}%nat, [{}], {}, {})", vm_difficulty, init_coq, vm_coq(&old_vm, &mentioned), tgt));
-            }
+                format!("({}%nat, [{}], {}, {})", vm_difficulty, init_coq, vm_coq(&old_vm, &mentioned), tgt)
+            };
+            if ival < 2 { run_parts.push(run_part.clone()); }
             if let Err(p) = r_new {
                 // AstVm cannot run everything the raiser may print: a jump whose condition carried a difficulty switch comes
                 // back as a raw instruction with offsetof()/timeof() arguments ("not implemented: offsetof/timeof in VM").
@@ -591,8 +593,16 @@ fn run_case(cfg: &Config, text: &str, rng: &mut Rng, nvals: usize) -> Outcome {
             // statements' labelled time; the jumps that the lowerer generates for ternaries / && / || /
             // unless-skips go to generated labels "at the statement's time" and so reset the time.
             if !bad.is_empty() && !value_diff && text.contains(" @ ") {
-                out.oracle_fail.push(format!("explicit-jump-time: only times differ after a jump with an explicit time argument: {}", bad.join("; ")));
-                break;
+                // The model (Model.LowerProg.wprog on the model-lowered stream) has exactly this behaviour, so the
+                // valuations on which it shows are handed to the run correspondence as well: a timing difference
+                // that the model does not predict is then reported there, with this valuation as the input.
+                if ejt_seen == 0 {
+                    out.oracle_fail.push(format!("explicit-jump-time: only times differ after a jump with an explicit time argument: {}", bad.join("; ")));
+                }
+                if ival >= 2 && ejt_seen < 6 { run_parts.push(run_part); }
+                ejt_seen += 1;
+                if ejt_seen >= 6 { break; }
+                continue;
             }
             if !bad.is_empty() { out.oracle_fail.push(format!("source and compiled code behave differently: {}", bad.join("; "))); break; }
         }
